@@ -1118,6 +1118,12 @@ class C15(SimSpec):
         elif i % 5 in (1, 3):
             # history extension: once the pipeline is complete the user resubmits the failed jobs of one stage
             scen["resubmit_stage"] = True
+        if i % 10 == 7 and ns >= 2:
+            # every sbatch of one stage is rejected: that stage completes synchronously with an error inside the process that
+            # submitted it, and the following stages are submitted from nested processes
+            k = rng.randint(1, ns)
+            scen["faults"] = {"sbatch_fail_re": f"output-stage{k}/"}
+            scen.pop("resubmit_stage", None)
         return scen
 
     def tasks(self, tier, seed):
@@ -1147,6 +1153,7 @@ class C15(SimSpec):
         c["stages_per_pipeline"] = hist(len(t["args"]["scen"]["stages"]) for t in tasks)
         c["pipelines_with_a_stage_resubmitted_after_completion"] = sum(1 for r in ok if r.get("stage_resubmitted"))
         c["pipelines_with_a_killed_node"] = sum(1 for r in ok if (r.get("killed_nodes") or 0) >= 1)
+        c["pipelines_with_a_stage_rejected_by_sbatch"] = sum(1 for t in tasks if (t["args"]["scen"].get("faults") or {}).get("sbatch_fail_re"))
         c["nonzero_stage_return_codes_seen"] = total(ok, "nonzero_stage_rcs")
         c["local_mode_runs"] = sum(1 for t in tasks if t["args"]["scen"].get("mode") == "local")
         return c
